@@ -118,13 +118,17 @@ fn check(c: &Case, ctx: &Ctx, route: Route) -> Outcome {
     let dir = ctx.case_dir();
     let n = m.orig.len();
     let names = sample_names(n, "s");
-    let mut files_a = Vec::new();
-    let mut files_b_unperm = Vec::new();
+    let mut files_a: Vec<(String, String)> = vec![(String::new(), String::new()); n];
+    let mut files_b_unperm: Vec<(String, String)> = vec![(String::new(), String::new()); n];
     let mut bytes_differ = false;
     // a third of the command-line cases hand the same records over as reads: every record five times (the
     // documented default --min-count) with top qualities, plus one read seen once, which must be filtered out
     // from the plain and from the compressed file alike (what a file is is decided by its content)
     let as_reads = matches!(route, Route::Cli) && (n + c.k / 2 + m.orig[0].len()) % 3 == 0;
+    // half of these lists mix read samples and assemblies (every sample is what its own file says it is, wherever
+    // it stands in the list: the sample permutation moves an assembly or a read sample to the front)
+    let mixed = as_reads && n >= 2 && (c.k / 2 + m.orig[0].len() + n) % 2 == 0;
+    let is_read_sample = |i: usize| !mixed || (i + c.k / 2) % 2 == 0;
     if as_reads {
         let reads_of = |recs: &[Vec<u8>], i: usize, first: bool| -> Vec<(Vec<u8>, Vec<u8>)> {
             let mut out = Vec::new();
@@ -146,10 +150,10 @@ fn check(c: &Case, ctx: &Ctx, route: Route) -> Outcome {
             }
             out
         };
-        for i in 0..n {
+        for i in (0..n).filter(|i| is_read_sample(*i)) {
             let fa = dir.join(format!("a{i}.fastq"));
             cli::write_fastq(&fa, &reads_of(&m.orig[i], i, true));
-            files_a.push((names[i].clone(), cli::p(&fa)));
+            files_a[i] = (names[i].clone(), cli::p(&fa));
             let fb = dir.join(format!("b{i}.fastq"));
             cli::write_fastq(&fb, &reads_of(&m.trans[i], i, false));
             if std::fs::read(&fa).ok() != std::fs::read(&fb).ok() {
@@ -159,16 +163,16 @@ fn check(c: &Case, ctx: &Ctx, route: Route) -> Outcome {
                 let fz = dir.join(format!("b{i}.fastq{}", [".gz", ".gzip", ".gz", ".bgz"][(i + c.k / 2 + c.t.width.unwrap_or(0) as usize) % 4]));
                 match (i + c.k / 2) % 4 { 0 => cli::gzip_members(&fb, &fz, 2), 1 => cli::gzip_members(&fb, &fz, 3), _ => cli::gzip(&fb, &fz) }
                 bytes_differ = true;
-                files_b_unperm.push((names[i].clone(), cli::p(&fz)));
+                files_b_unperm[i] = (names[i].clone(), cli::p(&fz));
             } else {
-                files_b_unperm.push((names[i].clone(), cli::p(&fb)));
+                files_b_unperm[i] = (names[i].clone(), cli::p(&fb));
             }
         }
     }
-    for i in if as_reads { n..n } else { 0..n } {
+    for i in (0..n).filter(|i| !as_reads || !is_read_sample(*i)) {
         let fa = dir.join(format!("a{i}.fa"));
         cli::write_fasta_auto(&fa, &m.orig[i], None);
-        files_a.push((names[i].clone(), cli::p(&fa)));
+        files_a[i] = (names[i].clone(), cli::p(&fa));
         let fb = dir.join(format!("b{i}.fa"));
         cli::write_fasta_auto(&fb, &m.trans[i], c.t.width.map(|w| w as usize));
         // a quarter of the re-wrapped files also hold empty lines inside their records
@@ -188,9 +192,9 @@ fn check(c: &Case, ctx: &Ctx, route: Route) -> Outcome {
             // half of the compressed files consist of two or three gzip members (cut anywhere, also inside a record)
             match (i + c.k / 2) % 4 { 0 => cli::gzip_members(&fb, &fz, 2), 1 => cli::gzip_members(&fb, &fz, 3), _ => cli::gzip(&fb, &fz) }
             bytes_differ = true;
-            files_b_unperm.push((names[i].clone(), cli::p(&fz)));
+            files_b_unperm[i] = (names[i].clone(), cli::p(&fz));
         } else {
-            files_b_unperm.push((names[i].clone(), cli::p(&fb)));
+            files_b_unperm[i] = (names[i].clone(), cli::p(&fb));
         }
     }
     let files_b: Vec<(String, String)> = m.sample_perm.iter().map(|i| files_b_unperm[*i].clone()).collect();
@@ -247,11 +251,12 @@ fn check(c: &Case, ctx: &Ctx, route: Route) -> Outcome {
             let mut cl = vec![];
             if c.rc && !c.t.rc_mask.is_empty() && c.t.rc_mask.iter().any(|x| *x) { cl.push("revcomp_records"); }
             if !c.t.rec_perm.is_empty() { cl.push("permute_records"); }
-            if c.t.width.is_some() && !as_reads { cl.push("rewrap"); }
+            if c.t.width.is_some() && (!as_reads || mixed) { cl.push("rewrap"); }
             if !c.t.case_mask.is_empty() { cl.push("case_flip"); }
             if c.t.gzip { cl.push("gzip"); }
             if as_reads { cl.push("as_reads_x5_plus_singleton"); }
-            if c.t.crlf && !as_reads { cl.push("crlf"); }
+            if mixed { cl.push("reads_and_assemblies_in_one_list"); }
+            if c.t.crlf && (!as_reads || mixed) { cl.push("crlf"); }
             if m.sample_perm.iter().enumerate().any(|(x, y)| x != *y) { cl.push("permute_samples"); }
             if c.k >= 33 { cl.push("k>=33"); }
             pass(bytes_differ && nwin >= 2, key_of(&(c.k, c.rc, &m.orig, &m.trans, &m.sample_perm, c.t.gzip, c.t.width)), cl)
